@@ -92,12 +92,16 @@ def to_sparse(x, P, enc):
     raise ValueError(enc)
 
 
-def widen_index_arrays(path, key):
-    """rewrite indices/indptr of a sparse group as int64 (what anndata writes for very large matrices)"""
+def widen_index_arrays(path, key, dtype='int64'):
+    """rewrite indices/indptr of a sparse group as int64 (what anndata writes for very large matrices) or as another
+    integer type that holds them (files written by other tools)"""
     with h5py.File(path, 'a') as f:
         grp = f[key]
         for name in ('indices', 'indptr'):
-            arr = grp[name][()].astype(np.int64)
+            arr = grp[name][()]
+            if arr.size and int(arr.max()) > np.iinfo(np.dtype(dtype)).max:
+                dtype = 'int64'
+            arr = arr.astype(np.dtype(dtype))
             attrs = dict(grp[name].attrs)
             del grp[name]
             d = grp.create_dataset(name, data=arr)
@@ -118,7 +122,7 @@ def write_matrix_file(path, x, P, f):
         materialize.write_h5ad(path, to_sparse(x, P, enc), cells, genes, enc=enc, layer=layer)
     key = 'X' if layer is None else f'layers/{layer}'
     if enc != 'dense' and f.get('idx64'):
-        widen_index_arrays(path, key)
+        widen_index_arrays(path, key, f.get('idx_dtype', 'int64'))
     if f.get('rechunk'):
         materialize.rechunk_h5ad(path, f['rechunk'], layer)
     facts = {}
@@ -177,6 +181,8 @@ def file_layouts(draw):
             f['rechunk'] = draw(st.sampled_from(CHUNKS))
     if enc != 'dense':
         f['idx64'] = draw(st.integers(0, 3)) == 0
+        if f['idx64']:
+            f['idx_dtype'] = draw(st.sampled_from(['int64', 'int64', 'uint32', 'uint16', 'int16']))
     return f
 
 
